@@ -48,13 +48,15 @@ Theorem resolve_is_spec_refuted : ~ resolve_is_spec_statement.
 Proof. exact statement_refuted. Qed.
 Print Assumptions resolve_is_spec_refuted.
 
-(* witness A: one binding under two export names, two export-star paths *)
-Theorem resolve_is_spec_refuted_alias :
-  all_esm witness_alias = true /\ indirect_acyclic witness_alias = true /\
-  link_verdict witness_alias (seq 0 6) 1 (imp 1 1 0) = Some VAmbiguous /\
+(* former witness A, one binding under two export names along two export-star paths: repaired
+   by fix a7bd0a8 (the name location is no longer part of the all-results-equal test); the
+   linker now gives ResolveExport's binding *)
+Theorem resolve_alias_two_names_agrees :
+  all_esm witness_alias = true /\ single_alias witness_alias = false /\
+  link_verdict witness_alias (seq 0 6) 1 (imp 1 1 0) = Some (VFound 5 0) /\
   spec_verdict witness_alias 1 (imp 1 1 0) = Some (VFound 5 0).
-Proof. exact refuted_alias. Qed.
-Print Assumptions resolve_is_spec_refuted_alias.
+Proof. exact alias_witness_agrees. Qed.
+Print Assumptions resolve_alias_two_names_agrees.
 
 (* witness B: a re-export running back into the file that star-exports it *)
 Theorem resolve_is_spec_refuted_cycle :
@@ -75,7 +77,7 @@ Proof. exact refuted_exportless. Qed.
 Print Assumptions resolve_is_spec_refuted_exportless.
 
 (* partial, bounded-exhaustive (finite domains, by computation): outside the
-   two refuted shapes the linker's verdict (found binding / not found /
+   refuted re-export-cycle shape the linker's verdict (found binding / not found /
    ambiguous) equals ResolveExport's for every import of
    - all 18000 graphs of three files over one export name (each name absent,
      local or re-exported from any file; export stars to any subset of the
@@ -84,14 +86,14 @@ Print Assumptions resolve_is_spec_refuted_exportless.
      re-exports.  Missing: the statement for unbounded graphs. *)
 Theorem resolve_is_spec_partial_bounded3 : forall fs, In fs domain1 ->
   let g := graph_of [1; 2; 3]%nat [1] fs in
-  single_alias g = true -> indirect_acyclic g = true ->
+  indirect_acyclic g = true ->
   forall ni, In ni (m_imports (getm g (S (length fs)))) -> agrees g (seq 0 (length g)) (S (length fs)) ni = true.
 Proof. exact (bounded_domain _ _ _ domain1_ok). Qed.
 Print Assumptions resolve_is_spec_partial_bounded3.
 
 Theorem resolve_is_spec_partial_bounded2 : forall fs, In fs domain2 ->
   let g := graph_of [1; 2]%nat [1; 2] fs in
-  single_alias g = true -> indirect_acyclic g = true ->
+  indirect_acyclic g = true ->
   forall ni, In ni (m_imports (getm g (S (length fs)))) -> agrees g (seq 0 (length g)) (S (length fs)) ni = true.
 Proof. exact (bounded_domain _ _ _ domain2_ok). Qed.
 Print Assumptions resolve_is_spec_partial_bounded2.
